@@ -40,31 +40,9 @@ void w_gset_raw(uint64_t nulltable, uint64_t numFields, uint8_t* pdu, uint64_t f
     Avtp_SetField(nulltable ? (Avtp_FieldDescriptor_t*)0 : t, (uint8_t)numFields, pdu, (uint8_t)field, v);
 }
 
-/* byte-order helpers: returns the helper's result as a register value and
- * stores the result object's memory image (what a memcpy of the object sees)
- * into image[0..n) */
-static void img16(uint8_t* image, uint16_t r) { uint8_t* p = (uint8_t*)&r; image[0] = p[0]; image[1] = p[1]; }
-static void img32(uint8_t* image, uint32_t r) { uint8_t* p = (uint8_t*)&r; for (int i = 0; i < 4; i++) image[i] = p[i]; }
-static void img64(uint8_t* image, uint64_t r) { uint8_t* p = (uint8_t*)&r; for (int i = 0; i < 8; i++) image[i] = p[i]; }
-
-uint64_t w_bo(uint64_t helper, uint64_t x, uint8_t* image)
+/* 1 when this world stores the most significant byte first */
+uint64_t w_world_id(void)
 {
-    switch (helper) {
-    case 0:  { uint16_t r = Avtp_Bswap16((uint16_t)x);   img16(image, r); return r; }
-    case 1:  { uint32_t r = Avtp_Bswap32((uint32_t)x);   img32(image, r); return r; }
-    case 2:  { uint64_t r = Avtp_Bswap64(x);             img64(image, r); return r; }
-    case 3:  { uint16_t r = Avtp_CpuToLe16((uint16_t)x); img16(image, r); return r; }
-    case 4:  { uint32_t r = Avtp_CpuToLe32((uint32_t)x); img32(image, r); return r; }
-    case 5:  { uint64_t r = Avtp_CpuToLe64(x);           img64(image, r); return r; }
-    case 6:  { uint16_t r = Avtp_CpuToBe16((uint16_t)x); img16(image, r); return r; }
-    case 7:  { uint32_t r = Avtp_CpuToBe32((uint32_t)x); img32(image, r); return r; }
-    case 8:  { uint64_t r = Avtp_CpuToBe64(x);           img64(image, r); return r; }
-    case 9:  { uint16_t r = Avtp_LeToCpu16((uint16_t)x); img16(image, r); return r; }
-    case 10: { uint32_t r = Avtp_LeToCpu32((uint32_t)x); img32(image, r); return r; }
-    case 11: { uint64_t r = Avtp_LeToCpu64(x);           img64(image, r); return r; }
-    case 12: { uint16_t r = Avtp_BeToCpu16((uint16_t)x); img16(image, r); return r; }
-    case 13: { uint32_t r = Avtp_BeToCpu32((uint32_t)x); img32(image, r); return r; }
-    case 14: { uint64_t r = Avtp_BeToCpu64(x);           img64(image, r); return r; }
-    }
-    return 0;
+    uint32_t one = 1;
+    return *(uint8_t*)&one == 0;
 }
